@@ -135,6 +135,29 @@ package SolarUtil
 //@   use dayLinear2(yOf(j), mOf(j), dOf(j))
 //@   reveal mOf dOf
 
+//@ # the civil year of a day number is monotone, and moves by at most one over less than 300 days
+//@ lemma yOfMono(j1 int, j2 int) [C01]
+//@   requires 1721058 <= j1 && j1 <= j2 && j2 <= 5373484
+//@   ensures yOf(j1) <= yOf(j2) && implies(j2-j1 < 300, yOf(j2) <= yOf(j1)+1)
+//@   use yOfBracket(j1)
+//@   use yOfBracket(j2)
+//@   use jdnMono(yOf(j2)+1, 1, 1, yOf(j1), 1, 1)
+//@   use jdnMono(yOf(j1)+2, 1, 1, yOf(j2), 1, 1)
+//@   use yearStep(yOf(j1))
+//@   use yearStep(yOf(j1)+1)
+
+//@ # the year field of any valid date with day number j is yOf(j)
+//@ lemma yearOfDate(y int, m int, d int) [C01]
+//@   requires 0 <= y && y <= 9999 && validYmd(y, m, d)
+//@   ensures yOf(jdn(y, m, d)) == y && 1721058 <= jdn(y, m, d) && jdn(y, m, d) <= 5373484
+//@   use ymdOf(jdn(y, m, d))
+//@   use jdnMono(y, m, d, yOf(jdn(y, m, d)), mOf(jdn(y, m, d)), dOf(jdn(y, m, d)))
+//@   use jdnMono(yOf(jdn(y, m, d)), mOf(jdn(y, m, d)), dOf(jdn(y, m, d)), y, m, d)
+//@   use jdnMono(0, 1, 1, y, m, d)
+//@   use jdnMono(y, m, d, 0, 1, 1)
+//@   use jdnMono(y, m, d, 9999, 12, 31)
+//@   use jdnMono(9999, 12, 31, y, m, d)
+
 //@ # Meeus' formula, integer part: the library's float expression computes the same day number as jdn.
 //@ # 365.25 = 1461/4 exactly; floor(30.6001*k) == floor(306001*k/10000) for the double nearest 30.6001, k in 4..15
 //@ # (checked where it is used: the case split on month folds the product to a constant).
